@@ -9,6 +9,7 @@ pub mod c06;
 pub mod c07;
 pub mod c08;
 pub mod c10;
+pub mod c11;
 pub mod c12;
 pub mod c13;
 pub mod c16;
@@ -26,6 +27,7 @@ pub fn lookup(id: &str) -> Option<Box<dyn Property + Send>> {
         "C07" => Some(Box::new(c07::C07)),
         "C08" => Some(Box::new(c08::C08)),
         "C10" => Some(Box::new(c10::C10)),
+        "C11" => Some(Box::new(c11::C11)),
         "C12" => Some(Box::new(c12::C12)),
         "C13" => Some(Box::new(c13::C13)),
         "C16" => Some(Box::new(c16::C16)),
